@@ -544,5 +544,111 @@ func c14RaceScenarios(tier string) []*Scenario {
 			}
 		}
 	}
-	return []*Scenario{sc, sc5}
+	// M8: four goroutines, released together, allocate histograms (new names, value and duration buckets) whose tag
+	// map is ONE shared map - one cached tag slice behind all of them, with room to spare in it - and report a
+	// sample through every bucket; next to "no data race", every sample arrives once, under its own name, tags and
+	// bucket tags
+	sc8 := &Scenario{Property: "C14", Name: "M8-concurrent-histogram-allocation-one-tag-set"}
+	sc8.Body = func(x *Run) {
+		s := newFastSink()
+		x.Cleanup = append(x.Cleanup, s.close)
+		r, err := m3.NewReporter(m3.Options{HostPorts: []string{s.addr}, Service: "svc", Env: "test", MaxQueueSize: 4096})
+		if err != nil {
+			return
+		}
+		tagSets := []map[string]string{nil, {"a": "b"}, {"a": "b", "c": "d", "e": "f"}}
+		const rounds = 60
+		gate := newGate(4)
+		var ths []*rt.Thread
+		for i := 0; i < 4; i++ {
+			i := i
+			ths = append(ths, rt.GoNamed("user", func() {
+				gate()
+				for k := 0; k < rounds; k++ {
+					tg := tagSets[k%len(tagSets)]
+					name := fmt.Sprintf("h%d_%d", i, k)
+					if k%2 == 0 {
+						h := r.AllocateHistogram(name, tg, tally.ValueBuckets{1, 2})
+						h.ValueBucket(0, 1).ReportSamples(1)
+						h.ValueBucket(1, 2).ReportSamples(2)
+					} else {
+						h := r.AllocateHistogram(name, tg, tally.DurationBuckets{time.Second})
+						h.DurationBucket(0, time.Second).ReportSamples(3)
+					}
+				}
+			}))
+		}
+		for _, t := range ths {
+			t.Join()
+		}
+		if err := r.Close(); err != nil {
+			return
+		}
+		type arrival struct {
+			n      int
+			tags   map[string]string
+			bucket string
+		}
+		seen := map[string]*arrival{}
+		want := 4 * (rounds/2*2 + rounds/2)
+		for _, dg := range s.drainUntil(func(d [][]byte) bool { return userMetrics("compact", d) >= want }) {
+			msg, err := decodeMessage("compact", dg)
+			if err != nil {
+				continue
+			}
+			for _, m := range msg.Batch.Metrics {
+				if !strings.HasPrefix(m.Name, "h") {
+					continue
+				}
+				tg := map[string]string{}
+				var bucket string
+				for _, t := range m.Tags {
+					switch t.Name {
+					case "bucket":
+						bucket = t.Value
+					case "bucketid":
+					default:
+						tg[t.Name] = t.Value
+					}
+				}
+				key := fmt.Sprint(m.Name, " ", m.Value.Count)
+				a := seen[key]
+				if a == nil {
+					a = &arrival{tags: tg, bucket: bucket}
+					seen[key] = a
+				}
+				a.n++
+			}
+		}
+		for i := 0; i < 4; i++ {
+			for k := 0; k < rounds; k++ {
+				tg := tagSets[k%len(tagSets)]
+				counts := []int64{1, 2}
+				if k%2 == 1 {
+					counts = []int64{3}
+				}
+				for _, c := range counts {
+					key := fmt.Sprint(fmt.Sprintf("h%d_%d", i, k), " ", c)
+					a := seen[key]
+					if a == nil || a.n != 1 {
+						n := 0
+						if a != nil {
+							n = a.n
+						}
+						x.failf("sample-of-a-concurrently-allocated-histogram-not-delivered-exactly-once", "%s (tags %s) reported once by goroutine %d arrived %d times", key, tagString(tg), i, n)
+						return
+					}
+					if !tagsEqual(a.tags, tg) && !(len(a.tags) == 0 && len(tg) == 0) {
+						x.failf("concurrently-allocated-histogram-delivered-with-wrong-tags", "%s allocated with tags %s (a tag map shared by all allocations of that round) arrived with %s", key, tagString(tg), tagString(a.tags))
+						return
+					}
+					if a.bucket == "" {
+						x.failf("concurrently-allocated-histogram-delivered-with-wrong-tags", "%s arrived without its bucket tag (tags %s)", key, tagString(a.tags))
+						return
+					}
+				}
+			}
+		}
+	}
+	return []*Scenario{sc, sc5, sc8}
 }
